@@ -19,6 +19,7 @@ CONSTANTS
     Strides,      \* set of strides (0 = none)
     MissX, MissY, \* sets of sets of business days missing from the feature / price table
     YRanges,      \* set of <<first, last>> day of the price table
+    Folds,        \* set of <<first, last>> day of the fold an episode is run in (<<0, 0>>: the default fold, everything)
     Bounds        \* set of <<start, end>> bounds (0 = not given)
 
 BDays == {d \in 1..NDays : (d - 1) % 7 < 5}
@@ -71,13 +72,16 @@ RowsAt(p, pr, t) ==
 VARIABLES p, out
 
 Init ==
-    /\ \E mx \in MissX, my \in MissY, yr \in YRanges, w \in Windows, s \in Strides, b \in Bounds :
+    /\ \E mx \in MissX, my \in MissY, yr \in YRanges, w \in Windows, s \in Strides, b \in Bounds, f \in Folds :
           /\ p = [dx |-> BDays \ mx, dy |-> {d \in BDays : yr[1] <= d /\ d <= yr[2]} \ my, w |-> w, s |-> s,
-                  start |-> b[1], end |-> b[2]]
+                  start |-> b[1], end |-> b[2], fold |-> f]
     /\ p.dy # {}
     /\ LET pr == Prep(p)
        IN  out = IF ~pr.ok THEN [ok |-> FALSE, px |-> <<>>, steps |-> <<>>, rows |-> <<>>]
-                 ELSE LET st == StepsOf(p, pr)
+                 ELSE LET all == StepsOf(p, pr)
+                          \* an episode run in a fold visits the steps inside the fold's window only
+                          st == IF p.fold = <<0, 0>> THEN all
+                                ELSE SelectSeq(all, LAMBDA d : p.fold[1] <= d /\ d <= p.fold[2])
                       IN  [ok |-> TRUE, px |-> pr.px, steps |-> st, rows |-> [k \in 1..Len(st) |-> RowsAt(p, pr, st[k])]]
 Next == UNCHANGED <<p, out>>
 
